@@ -65,7 +65,8 @@ def wellformed(part, legend, data, text, sc):
 KIND_NAME = {"type": "type", "proc": "function", "param": "parameter", "var": "variable"}
 
 
-def classified(part, legend, dec, P, text, T, sc):
+def classified(part, legend, dec, P, text, T, sc, open_ids=frozenset()):
+    pm = feat.proc_of_tokens(P)
     got = {(l, c): (legend["tokenTypes"][ty], mod) for (l, c, ln, ty, mod) in dec}
     decl_bit = 1 << legend["tokenModifiers"].index("declaration")
     for t in P.toks:
@@ -84,6 +85,10 @@ def classified(part, legend, dec, P, text, T, sc):
         g = got.get(pos)
         if g is None:
             part.fail("no semantic token for the %s %r at %d:%d" % (t.kind, t.text, pos[0], pos[1]), sc); return False
+        if g != want and t.kind == "id":
+            loc = feat.shadowing_local(P, t, pm)
+            if loc is not None and "K-C15-1" in open_ids and g == (KIND_NAME[loc.kind], 0):
+                part.known("K-C15-1", "known class"); part.add("known_classes_seen", "K-C15-1"); continue
         if g != want:
             part.fail("semantic token for %r (%s%s) at %d:%d is %r with modifiers %d, expected %r with modifiers %d" %
                       (t.text, t.kind, "/" + t.role if t.kind == "id" else "", pos[0], pos[1], g[0], g[1], want[0], want[1]), sc); return False
@@ -92,7 +97,7 @@ def classified(part, legend, dec, P, text, T, sc):
 
 
 def worker(args):
-    seed, nprog, nhostile = args
+    seed, nprog, nhostile, open_ids = args
     rng = random.Random("C15/%s" % seed)
     part = Part(); sess = feat.Session()
     legend = None
@@ -110,7 +115,7 @@ def worker(args):
             if not isinstance(res, dict) or "data" not in res: part.fail("semanticTokens answers %r" % (res,), sc)
             else:
                 dec = wellformed(part, legend, res["data"], text, sc)
-                if dec is not None and classified(part, legend, dec, P, text, T, sc):
+                if dec is not None and classified(part, legend, dec, P, text, T, sc, open_ids):
                     part.cnt("classified_documents")
                     if it == 0: part.sample({"part": "classification", "text": text[:200], "decoded_head": dec[:8], "legend": legend}, 1)
             sess.close(uri)
@@ -142,13 +147,34 @@ def worker(args):
 def run(ctx):
     server_bin("rel")
     nprog, nh = (80, 150) if ctx.quick else (1500, 4000)
-    for p in pmap(worker, [("%s/%d" % (ctx.seed, i), nprog, nh) for i in range(NCPU)]): ctx.merge(p)
+    open_ids = frozenset(f["id"] for f in ctx.open_findings())
+    replay_witnesses(ctx)
+    for p in pmap(worker, [("%s/%d" % (ctx.seed, i), nprog, nh, open_ids) for i in range(NCPU)]): ctx.merge(p)
     ctx.rule = ("classification: well-typed generated programs in all layouts (multi-line gaps, several declarations, comments between declarations, CRLF): every keyword, number, comment and "
                 "identifier must carry its class / binding kind, `declaration` exactly on declaring occurrences; well-formedness: the same plus hostile documents (token soup, mutated programs, "
                 "non-ASCII) before and after an edit: strictly increasing, non-overlapping, each token coinciding with one lexical token; distinct_nontrivial = distinct (class, is declaration) pairs")
     ctx.assumptions = ["lexical tokens from harness/reflex.py; bindings from the generator; legend from this run's initialize response"]
     ctx.floor("evaluations", ctx.evaluations, 1000)
     ctx.floor("classified documents", ctx.extra.get("counters", {}).get("classified_documents", 0), 200)
+
+
+def replay_witnesses(ctx):
+    import json, os
+    from ..core import VERIF
+    sess = feat.Session()
+    for f in ctx.open_findings():
+        w = json.load(open(os.path.join(VERIF, f["witness"])))["scenario"]
+        try:
+            uri = sess.open(w["text"], "c15w_")
+            legend = sess.server().caps["result"]["capabilities"]["semanticTokensProvider"]["legend"]
+            res = sess.result("textDocument/semanticTokens/full", {"textDocument": {"uri": uri}}); ctx.count(); sess.close(uri)
+            dec = decode(res["data"]) if isinstance(res, dict) else []
+            hit = [d for d in dec if (d[0], d[1]) == (w["line"], w["character"])]
+            if not hit or legend["tokenTypes"][hit[0][3]] != w["expected"]: ctx.known(f["id"], f["what"])
+            else: ctx.extra.setdefault("witnesses_no_longer_failing", []).append(f["id"])
+        except (ServerDied, Timeout, FrameError):
+            ctx.known(f["id"], f["what"]); sess.kill()
+    sess.kill()
 
 
 def replay(ctx, sc):
